@@ -24,6 +24,7 @@ def run_property(prop, tier, seed, root=None, quiet=False, only=None):
         generic.cone_rule(repo, chk, Rules(repo, chk))
         generic.state_rule(repo, chk)
         generic.decorator_rule(repo, chk)
+        generic.definitions_rule(repo, chk)
         if tier == 'thorough' and root is None:
             from . import selftest
             selftest.run(prop, repo, chk, seed)
